@@ -29,7 +29,9 @@ const guidTick = int64(1) << 20
 // factory; must run inside a controlled execution (the clock is vrt's).
 func GuidBFS(nodeID int64, depth int) GuidStats {
 	var st GuidStats
-	ops := []string{"id", "+0", "+tick", "+tick-1", "-tick", "-3tick", "burst"}
+	// (+2^8, +2^18, +2^28 ticks: steps that change only high bits of the timestamp field, so
+	// that every byte of the rendered id takes part)
+	ops := []string{"id", "+0", "+tick", "+tick-1", "-tick", "-3tick", "burst", "+2^8tick", "+2^18tick", "+2^28tick"}
 	type res struct {
 		key string
 		err string
@@ -38,7 +40,9 @@ func GuidBFS(nodeID int64, depth int) GuidStats {
 		vrt.S.Clock = vrt.Epoch0
 		f := NewGUIDFactory(nodeID)
 		var last guid
+		lastHex := ""
 		seen := map[guid]bool{}
+		seenHex := map[string]bool{}
 		get := func() string {
 			id, err := f.NewGUID()
 			if err != nil {
@@ -57,6 +61,21 @@ func GuidBFS(nodeID int64, depth int) GuidStats {
 			if want := (int64(id) >> nodeIDShift) & 1023; want != nodeID {
 				return fmt.Sprintf("id %x carries node id %d, want %d", int64(id), want, nodeID)
 			}
+			// ... and the same for the 16 hex characters that actually become the message id
+			hx := id.Hex()
+			hs := string(hx[:])
+			for _, ch := range hs {
+				if !((ch >= '0' && ch <= '9') || (ch >= 'a' && ch <= 'f')) {
+					return fmt.Sprintf("rendered id %q is not 16 hex characters", hs)
+				}
+			}
+			if seenHex[hs] {
+				return fmt.Sprintf("rendered id %s handed out twice (ids %x and an earlier one)", hs, int64(id))
+			}
+			if hs <= lastHex {
+				return fmt.Sprintf("rendered id %s is not greater than the previous one %s", hs, lastHex)
+			}
+			seenHex[hs], lastHex = true, hs
 			seen[id], last = true, id
 			return ""
 		}
@@ -74,6 +93,12 @@ func GuidBFS(nodeID int64, depth int) GuidStats {
 				vrt.S.Clock -= guidTick
 			case "-3tick":
 				vrt.S.Clock -= 3 * guidTick
+			case "+2^8tick":
+				vrt.S.Clock += guidTick << 8
+			case "+2^18tick":
+				vrt.S.Clock += guidTick << 18
+			case "+2^28tick":
+				vrt.S.Clock += guidTick << 28
 			case "burst":
 				for i := 0; i < 4100 && e == ""; i++ {
 					e = get()
